@@ -243,26 +243,27 @@ def _hist_graphs():
     T, G, A = L("t_f64"), L("t_f32_grad_2x3"), L("arr:f64:(2, 3)")  # both tensors hold ordinary values next to nan/-0/inf
     M = lambda op, *path: ["mut", op, list(path)]  # noqa: E731
     SET = lambda desc, *path: ["mut", "set", list(path), desc]  # noqa: E731
+    TH = lambda ev: ev + ["thorough"]  # noqa: E731  (events explored in the thorough tier only; quick: six mutations per object)
     return {
         "tensor_top": (
             O("Root", t=T, g=G, n=L("i-1")),
-            [M("rg_flip", "t"), M("rg_flip", "g"), M("data_mul2", "g"), M("data_set", "t"), M("numpy_set", "t"), M("inplace_add", "t"),
-             SET(L("arr:i16:(3,)"), "t"), M("del", "n")],
+            [M("rg_flip", "t"), M("rg_flip", "g"), M("data_mul2", "g"), M("data_set", "t"), M("numpy_set", "t"), SET(L("arr:i16:(3,)"), "t"),
+             TH(M("inplace_add", "t")), TH(M("del", "n"))],
         ),
         "tensor_in_containers": (
             O("Root", l=C("list", T, L("s")), d=D(("k", G))),
             [M("rg_flip", "l", 0), M("numpy_set", "l", 0), M("data_mul2", "d", "k"), M("rg_flip", "d", "k"), ["mut", "append", ["l"], L("s_unicode")],
-             SET(L("i2^40"), "d", "k2"), SET(C("tuple", L("s"), L("none")), "l")],
+             SET(C("tuple", L("s"), L("none")), "l"), TH(SET(L("i2^40"), "d", "k2"))],
         ),
         "arrays_and_containers": (
             O("Root", a=A, l=C("list", L("i-1"), L("s")), d=D(("k", L("arr:i16:(3,)"))), v=L("s")),
-            [M("nd_set", "a"), M("nd_set", "d", "k"), ["mut", "append", ["l"], L("f1.5")], SET(L("none"), "d", "n"), SET(L("s_unicode"), "a"),
-             SET(L("arr:u8:(3,)"), "v"), M("del", "v"), M("del", "d", "k")],
+            [M("nd_set", "a"), M("nd_set", "d", "k"), ["mut", "append", ["l"], L("f1.5")], SET(L("s_unicode"), "a"), SET(L("arr:u8:(3,)"), "v"), M("del", "v"),
+             TH(SET(L("none"), "d", "n")), TH(M("del", "d", "k"))],
         ),
         "nested_object": (
             O("Root", child=O("NodeA", t=T, a=L("arr:i16:(3,)"), v=L("i-1")), v=L("s")),
             [M("rg_flip", "child", "t"), M("data_set", "child", "t"), M("nd_set", "child", "a"), SET(L("s"), "child", "v"), M("del", "child", "a"),
-             SET(G, "child", "new"), SET(C("list", L("i-1"), L("s")), "child")],
+             SET(G, "child", "new"), TH(SET(C("list", L("i-1"), L("s")), "child"))],
         ),
     }
 
@@ -423,14 +424,18 @@ def _show_hist(hist):
     return "[" + " ; ".join(out) + "]"
 
 
-def enumerate_histories(depth):
+def hist_events(gname, quick):
+    return [[x for x in e if x != "thorough"] for e in HIST_GRAPHS[gname][1] if not (quick and e[-1] == "thorough")]
+
+
+def enumerate_histories(depth, quick=False):
     """All event sequences of length 1..depth that end in a save (mode='o' never first). Enabledness that
     depends on the state is decided in the worker by a dry run."""
     import itertools
 
     items = []
-    for gname, (_, muts) in HIST_GRAPHS.items():
-        alphabet = muts + HIST_SAVES
+    for gname in HIST_GRAPHS:
+        alphabet = hist_events(gname, quick) + HIST_SAVES
         for n in range(1, depth + 1):
             for prefix in itertools.product(alphabet, repeat=n - 1):
                 if prefix and prefix[0][0] == "save_o":
@@ -472,7 +477,7 @@ def run(ctx):
         "leaf contents are seeded (VERIF_SEED); the set of graphs and configurations does not depend on the seed",
     )
     items, bounds = S.grammar(ctx.tier)
-    ncore = 5 if ctx.quick else 20
+    ncore = 4 if ctx.quick else 20
     core = S.config_core(ncore)
 
     probe = S.O(
@@ -499,7 +504,7 @@ def run(ctx):
     ]
     merged_cfg = ctx.pmap(eval_config, cfg_items, chunk=2, label="configurations", seed=ctx.seed, scratch=ctx.scratch)
     hdepth = 3 if ctx.quick else 4
-    hitems = enumerate_histories(hdepth)
+    hitems = enumerate_histories(hdepth, ctx.quick)
     merged_h = ctx.pmap(eval_history, hitems, label="histories", seed=ctx.seed, scratch=ctx.scratch)
 
     covered = set()
@@ -518,14 +523,14 @@ def run(ctx):
             "path_kinds": list(PATH_KINDS),
             "modes": list(MODES),
             "sequence_alphabet": S.SEQ_ALPHABET,
-            "numeric_corner_alphabet": S.CORNER_ALPHABET,
+            "numeric_corner_alphabet": S.CORNER_ALPHABET_QUICK if ctx.quick else S.CORNER_ALPHABET,
             "name_alphabet": S.NAME_ALPHABET,
         },
         bounds=dict(bounds, config_core_graphs=len(core), config_points=len(cfg_items) * len(PATH_KINDS) * len(MODES), history_depth=hdepth),
         relations=["load_save_equals_input", "zip_equals_dir", "fixed_point", "config_independent", "history:load_equals_current_object", "history:earlier_target_unchanged"],
         histories={
             "depth": hdepth, "graphs": {k: S.show(v[0]) for k, v in HIST_GRAPHS.items()},
-            "events": {k: [_show_hist([e]) for e in v[1] + HIST_SAVES] for k, v in HIST_GRAPHS.items()},
+            "events": {k: [_show_hist([e]) for e in hist_events(k, ctx.quick) + HIST_SAVES] for k in HIST_GRAPHS},
             "sequences_enumerated": len(hitems), "executed": int(merged_h.extra["histories"]), "not_enabled": int(merged_h.extra["histories_not_enabled"]),
             "with_mutation_between_two_saves": int(merged_h.extra["histories_with_mutation_between_two_saves"]), "saves": int(merged_h.extra["history_saves"]),
         },
